@@ -53,7 +53,8 @@ def instances(tier, seed):
         rng.shuffle(all3)
         hist += all3[:400]
     # queries through an OLD solution object after an edit; the public ocp.transcribe() (explicit histories, not part of the product)
-    hist += [['SOLVE', 'T0', 'QOLD'], ['SOLVE', 'ST', 'QOLD'], ['SOLVE', 'T', 'QOLD', 'SOLVE'], ['SOLVE', 'M', 'QOLD'], ['TF', 'TR', 'ST'], ['TR', 'T0'], ['T0F', 'TR', 'AO', 'TR']]
+    hist += [['SOLVE', 'T0', 'QOLD'], ['SOLVE', 'ST', 'QOLD'], ['SOLVE', 'T', 'QOLD', 'SOLVE'], ['SOLVE', 'M', 'QOLD'], ['TF', 'TR', 'ST'], ['TR', 'T0'], ['T0F', 'TR', 'AO', 'TR'],
+             ['S', 'S0'], ['S', 'SOLVE', 'S0'], ['S', 'S0', 'M'], ['S0', 'S']]
     # edits made on a SUB-STAGE of a multi-stage OCP after a transcription
     for si in (0, 1):
         for op in ('ST', 'AO', 'T', 'CC'):
@@ -146,6 +147,10 @@ def apply_op(op, b, spec, cfg, state):
     elif op == 'S':
         state['max_iter'] = 1 + (n % 2)
         ocp.solver('ipopt', {'ipopt.max_iter': state['max_iter'], 'ipopt.print_level': 0, 'print_time': False})
+    elif op == 'S0':
+        # the solver is declared again WITHOUT options: earlier options are withdrawn (defaults apply)
+        state['max_iter'] = None
+        ocp.solver('ipopt')
     elif op == 'T':
         v = Fr(2 + n, 2)
         ocp.set_T(float(v))
@@ -452,9 +457,12 @@ def run(item):
     # fresh OCP with the final specification
     with quiet():
         bf = declare(spec, cfg)
-        opts = dict(opts0)
-        opts['ipopt.max_iter'] = state['max_iter']
-        bf.ocp.solver('ipopt', opts)
+        if state['max_iter'] is None:
+            bf.ocp.solver('ipopt')
+        else:
+            opts = dict(opts0)
+            opts['ipopt.max_iter'] = state['max_iter']
+            bf.ocp.solver('ipopt', opts)
     F = Inst(spec, cfg, seed=item.get('seed', 0), built=bf, solver=False, like=E_, bind=bind_positional())
     diffs, npairs = compare_nlps(ch, E_, F, 'evolved', 'fresh')
     for key, label, detail in diffs:
@@ -466,7 +474,7 @@ def run(item):
     if len(pe) != len(pf) or not all(close(float(a), float(c)) for a, c in zip(pe, pf)):
         V('p-differs', 'p', 'parameter vector of the evolved OCP %s differs from the fresh one %s' % (pe, pf))
     # solver settings in effect: observed through the iteration limit honoured by solve_limited
-    if 'S' in hist or 'M' in hist:
+    if 'S' in hist or 'M' in hist or 'S0' in hist:
         ie, if_ = iters_in_effect(b.ocp), iters_in_effect(bf.ocp)
         if ie != if_:
             V('solver-options-differ', 'ipopt.max_iter', 'iterations performed by solve_limited: evolved %s, fresh %s (limit set last: %s)' % (ie, if_, state['max_iter']))
